@@ -289,7 +289,7 @@ func fmtEvs(evs []c15Ev, t0 time.Time) string {
 func TestC15(t *testing.T) {
 	rec := evid.For("C15")
 	rec.Rule = "outbound: rapid draws 1-6 concurrent Ping calls (distinct virtual start instants, individual deadlines none/0.5/3/10 s) against a scripted peer that answers each Ping frame by: echo after a delay (so Pongs return out of order), withholding, duplicating, a foreign payload, another plausible payload, or a pre-emptive Pong sent before the call started; plus unsolicited Pongs and an optional CloseNow meanwhile; reader = explicit Read loop or CloseRead; virtual time. inbound: Ping frames with every payload length 0..125 placed before, between and inside fragmented (compressed) messages, and Ping-only streams under CloseRead. Non-trivial: >=2 concurrent pings of which one is answered after a delay, or a Ping inside a fragmented message. distinct = hash(mode, reader, per-ping (reply, delay, deadline), close)."
-	rapid.Check(t, func(rt *rapid.T) {
+	checkProp(t, func(rt *rapid.T) {
 		c := genC15(rt)
 		var msg string
 		var res c15Result
@@ -317,7 +317,7 @@ func TestC15(t *testing.T) {
 func TestC15Inbound(t *testing.T) {
 	rec := evid.For("C15")
 	caseNo := 0
-	rapid.Check(t, func(rt *rapid.T) {
+	checkProp(t, func(rt *rapid.T) {
 		caseNo++
 		mode := rapid.SampledFrom(c03Modes).Draw(rt, "mode")
 		deflate := mode.Mode != websocket.CompressionDisabled
